@@ -410,8 +410,11 @@ def sched_string(trace):
 # ======================================================================================
 # 2. Values (mirror of probe-thread/src/main.rs)
 # ======================================================================================
-TYPES = ("unit", "u8", "u64", "a3", "al64", "big", "box", "str")
-HEAP_TYPES = {"box": (8, 8), "str": (24, 1)}
+TYPES = ("unit", "u8", "u64", "a3", "al64", "big", "box", "str", "a16", "a32", "a64x", "a4k")
+# a16 = u128; a32/a64x/a4k = #[repr(align(32|64|4096))] byte arrays of 40/65/100 bytes whose last bytes matter
+HEAP_TYPES = {"box": (8, 8), "str": (24, 1), "pdb": (8, 8)}
+# results whose destructor panics (plain / heap-owning): never in TYPES rotations, they need their own scenarios
+DTOR_PANIC_TYPES = ("pd", "pdb")
 FNV0 = 0xCBF29CE484222325
 
 
@@ -426,9 +429,25 @@ def fnv(b, h=FNV0):
     return h
 
 
+def _pattern(n, t):
+    return bytes((t * 7 + i * 13 + 1) & 255 for i in range(n))
+
+
 def value_bytes(ty, t):
     if ty == "unit":
         return b""
+    if ty == "a16":
+        return ((v64(t) << 64) | v64(t + 1)).to_bytes(16, "little")
+    if ty == "a32":
+        return _pattern(40, t)
+    if ty == "a64x":
+        return _pattern(65, t)
+    if ty == "a4k":
+        return _pattern(100, t)
+    if ty == "pd":
+        return v64(t).to_bytes(8, "little")
+    if ty == "pdb":
+        return ((v64(t) + 7) & M64).to_bytes(8, "little")
     if ty == "u8":
         return bytes([(t * 37 + 11) & 255])
     if ty == "u64":
@@ -586,7 +605,7 @@ def parse_report(text):
     r = dict(mode=None, main_tid=0, base=None, end=None, maps0=[], maps1=[], spawn={}, join={}, drop=[], runs={}, alive=None,
              blocks={}, tids={}, gt=[], log=[], poison=None, poisonbad=[], live=[], counters=None, stuck=None, done=False,
              aborted=False, fp=[], hist=None, concurrent=None, settle_timeouts=0, prejoin_live=None, joining=[], usage=False,
-             early=[], early_total=0, stillrunning=[], notcleared=[], notgone=[])
+             early=[], early_total=0, stillrunning=[], notcleared=[], notgone=[], canarybad=[], canary=None)
 
     def snap(w):
         return dict(maps=int(w[2]), vm=int(w[4]), tasks=int(w[6]), live_n=int(w[8]), live_bytes=int(w[9]), live_hash=int(w[10], 16))
@@ -653,6 +672,10 @@ def parse_report(text):
                 r["prejoin_live"] = (int(w[1]), int(w[2]))
             elif k == "joining":
                 r["joining"].append(int(w[1]))
+            elif k == "canarybad":
+                r["canarybad"].append(dict(addr=int(w[1], 16), size=int(w[2]), rear=int(w[3]), off=int(w[4]), byte=int(w[5])))
+            elif k == "canary":
+                r["canary"] = (int(w[1]), int(w[2]))
             elif k in ("notcleared", "notgone"):
                 r[k].append(int(w[1]))
             elif k == "stillrunning":
@@ -823,6 +846,9 @@ def resource_checks(v, rep, specs, preds, ungated=False):
         if rep["spawn"].get(o, (1, 0))[0] != 1:
             continue
         main = owner.get(o, rep["main_tid"])  # the handle owner of this thread (a spawned thread when nested)
+        # a result whose destructor panics: when the runtime has to run it on the thread (handle dropped first) the thread
+        # ends on the panic path although its closure returned
+        dtor = ty in DTOR_PANIC_TYPES and not panics
         s = per.get(o)
         tid = rep["tids"].get(o, 0)
         if s is None or s["block"] is None:
@@ -867,23 +893,25 @@ def resource_checks(v, rep, specs, preds, ungated=False):
             if good and good[0]["by"] == main:
                 once(s["block"], "join-block", "handle", [22])
             else:
-                once(s["block"], "join-block", "thread", [43] if panics else [34])
+                once(s["block"], "join-block", "thread", [34, 43] if dtor else ([43] if panics else [34]))
         # TLS block
         if s["tls"] is None:
             v.add("C05:conformance:no-tls-allocation", "thread %d: no allocation between SPAWN_STACK_MAPPED and SPAWN_BEFORE_CLONE" % o)
         else:
-            once(s["tls"], "tls", "thread", [40] if panics else [35])
+            once(s["tls"], "tls", "thread", [35, 40] if dtor else ([40] if panics else [35]))
         # closure box: freed by the thread after its TLS on return; the documented leak on panic
         if s["closure"] is None:
             v.add("C05:conformance:no-closure-allocation", "thread %d: no allocation between SPAWN_BLOCK_ALLOCATED and SPAWN_STACK_MAPPED" % o)
         else:
-            once(s["closure"], "closure", "thread", [35], may_leak=panics)
+            once(s["closure"], "closure", "thread", [35], may_leak=panics or (dtor and op not in JOIN_OPS))
         # heap memory owned by the result value
         joined_some = (op in JOIN_OPS and not panics)
         for rec in s["values"]:
             good = [f for f in rec["frees"] if not f.get("bad")]
             if joined_some:
                 once(rec, "result-heap", "handle", None)
+            elif not good and dtor:
+                pass  # the destructor did run and panicked half way: what the value owned stays behind, the value's own business
             elif not good and not panics and op not in JOIN_OPS:
                 v.add("C06:drop-unjoined:result-not-dropped",
                       "thread %d returned a %s; its handle was dropped, not joined, and nobody ran the value's destructor - "
@@ -910,6 +938,28 @@ def resource_checks(v, rep, specs, preds, ungated=False):
             v.add("C06:%s:written-after-free" % what,
                   "thread %s: byte %d of the freed %s (%d bytes at %#x) was overwritten with %#04x after the free (offset 4..8 is the exit word the kernel clears on thread exit)" %
                   (o_, pb["off"], what, pb["size"], pb["addr"], pb["byte"]))
+    # red zones: a write before / past the end of a block
+    for cb in rep["canarybad"][:4]:
+        what, o_ = "heap", None
+        for o, s in per.items():
+            for res in ("block", "tls", "closure"):
+                rec = s[res]
+                if rec and rec["addr"] == cb["addr"]:
+                    what, o_ = {"block": "join-block", "tls": "tls", "closure": "closure"}[res], o
+            for rec in s["values"]:
+                if rec["addr"] == cb["addr"]:
+                    what, o_ = "result-heap", o
+        v.add("C06:%s:written-out-of-bounds" % what,
+              "thread %s: the red zone %s the %s (%d bytes at %#x%s) was overwritten: byte %d of it reads %#04x - somebody wrote %s the allocation" %
+              (o_, "after" if cb["rear"] else "before", what, cb["size"], cb["addr"],
+               (", result type %s" % specs[o_][0]) if o_ is not None and o_ < len(specs) else "", cb["off"], cb["byte"],
+               "past the end of" if cb["rear"] else "in front of"))
+        if what == "join-block" and cb["rear"]:
+            v.add("C05:join:result-written-outside-join-block",
+                  "thread %s (result type %s): the thread stored its result partly past the end of the %d-byte join block (red zone byte %d spoiled): "
+                  "the block is too small for a value of this alignment" % (o_, specs[o_][0] if o_ is not None and o_ < len(specs) else "?", cb["size"], cb["off"]))
+    if rep["canary"] and rep["canary"][1] and not rep["canarybad"]:
+        v.add("C06:heap:written-out-of-bounds", "%d red-zone bytes around allocations were overwritten" % rep["canary"][1])
     c = rep["counters"] or {}
     if c.get("log_lost") or c.get("live_lost"):
         v.add("MACHINERY:log-overflow", "allocator log or live table overflowed")
@@ -1230,6 +1280,16 @@ def eval_hist(binp, case):
     rep = parse_report(res["out"])
     v = V()
     info = dict(argv=argv, outcome="hist")
+    if case.get("expect_main_panic"):
+        # isolated process: main drops the finished handle, the result's destructor panics on the main thread
+        if res["timed_out"] or res["rc"] == -signal.SIGALRM:
+            v.add("C05:drop:hangs", "dropping the finished handle on the main thread (result destructor panics) never returned")
+        elif res["rc"] == 1 and "Main thread panicked" in res["err"] and "destructor panics" in res["err"]:
+            info["outcome"] = "hist:main-thread-dropper:result-destructor-panic-ends-process-with-status-1"
+        else:
+            v.add("C05:probe:crashed", "main-thread dropper with a panicking result destructor: expected the panic exit (status 1), got status %s; stderr: %s" %
+                  (res["rc"], res["err"].strip()[-200:]))
+        return v, info, rep
     if crash_check(v, res, rep, specs):
         return v, info, rep
     if rep["stillrunning"]:
@@ -1575,6 +1635,15 @@ def eval_nest(binp, case):
     # padding threads return a u64, the levels return `ty`
     level_slots = set(slot_of.values())
     specs = [((ty if i in level_slots else "u64"), p_, op) for i, (_t, p_, op) in enumerate(specs0)]
+    # a level that drops the FINISHED handle of a child which returned a value whose destructor panics runs that destructor
+    # itself: it ends on the panic path (its own join gives None) - and the child's join block must still be released once
+    dtor_drop_children = []
+    if ty in DTOR_PANIC_TYPES:
+        for k in range(len(levels) - 1):
+            if levels[k + 1] == ("r", "l"):
+                i = slot_of[k]
+                specs[i] = (specs[i][0], True, specs[i][2])
+                dtor_drop_children.append(slot_of[k + 1])
     argv = ["nest", "3000", ty, str(pad), ",".join("%s.%s" % (k, o) for k, o in levels)]
     v = V()
     info = dict(argv=argv, outcome="nest:depth%d:%s" % (len(levels), "+".join(o for _k, o in levels)))
@@ -1648,6 +1717,8 @@ def eval_nest(binp, case):
                 for k_, d_ in vg:
                     v.add(k_, "[guard run: handles of threads whose exit word was never cleared are left alone] " + d_)
         return v, info, rep
+    if dtor_drop_children:
+        info["outcome"] = "nest:result-destructor-panics-in-dropping-thread:depth%d" % len(levels)
     if which:
         sp = rep["spawn"].get(failing)
         if sp is None:
@@ -1670,6 +1741,15 @@ def eval_nest(binp, case):
     strace_checks(v, rep, specs, None, ev, per=per)
     maps_checks(v, rep)
     info["futex_waits"] = futex_scan(rep, ev)
+    if dtor_drop_children:
+        # the defect class found here first (repaired in /repo d70b51a) keeps a key of its own
+        v2 = V()
+        for k_, d_ in v:
+            if k_ == "C06:join-block:leaked" and any(("thread %d " % c) in d_ for c in dtor_drop_children):
+                k_ = "C06:join-block:leaked-after-result-destructor-panic"
+                d_ += " - its handle was dropped after it had finished by a spawned thread, the destructor of its result panicked there before the join block was released"
+            v2.add(k_, d_)
+        v = v2
     return v, info, rep
 
 
@@ -1686,6 +1766,18 @@ def enumerate_nest(tier):
                 for which in ("clone", "mmap"):
                     cases.append(dict(kind="nest", ty=ty, levels=[(okind, oop), ("r", "f")], pad=3, fail=which,
                                       name="nest/2/%s/%s.%s>fail-%s" % (ty, okind, oop, which)))
+    # results whose destructor panics: the reaper joins (and takes the value apart) or drops the handle before the child's CAS
+    for okind in ("r", "p"):
+        for ik, iop in (("r", "j"), ("r", "e"), ("p", "e")):
+            cases.append(dict(kind="nest", ty="pd", levels=[(okind, "j"), (ik, iop)], pad=0, name="nest/2/pd/%s.j>%s.%s" % (okind, ik, iop)))
+    # ... or drops the child's FINISHED handle: the destructor panics in the dropper (a spawned thread)
+    for ty in DTOR_PANIC_TYPES:
+        cases.append(dict(kind="nest", ty=ty, levels=[("r", "j"), ("r", "l")], pad=0, name="nest/2/%s/r.j>r.l" % ty))
+        cases.append(dict(kind="nest", ty=ty, levels=[("r", "j"), ("p", "l")], pad=0, name="nest/2/%s/r.j>p.l" % ty))
+        cases.append(dict(kind="nest", ty=ty, levels=[("r", "j"), ("r", "j"), ("r", "l")], pad=0, name="nest/3/%s/r.j>r.j>r.l" % ty))
+        cases.append(dict(kind="nest", ty=ty, levels=[("r", "j"), ("r", "l"), ("r", "j")], pad=0, name="nest/3/%s/r.j>r.l>r.j" % ty))
+        # the MAIN thread as the dropper: the panicking destructor ends the process with status 1 (the leak is moot there)
+        cases.append(dict(kind="hist", specs=[(ty, False, "l")], reps=1, log=True, expect_main_panic=True, name="hist/dtor-panics/main-dropper/%s" % ty))
     if thorough:
         for ty in ("u64", "box"):
             for oop in ("j", "l"):
@@ -1750,6 +1842,10 @@ def enumerate_cases(tier, model):
                 st = True
                 cases.append(dict(kind="gated", specs=[(ty, p, op)], order="f", trace=tr, strace=st, delay_us=0,
                                   name="g1/%s/%s/t%d" % (proto_name(p, op), ty, ti)))
+            if not p and op == "j":
+                for ty in DTOR_PANIC_TYPES:
+                    cases.append(dict(kind="gated", specs=[(ty, p, op)], order="f", trace=tr, strace=True, delay_us=0,
+                                      name="g1/%s/%s/t%d" % (proto_name(p, op), ty, ti)))
             if p:
                 for kind in ("e", "o", "m", "w"):
                     cases.append(dict(kind="gated", specs=[("u64" if ti % 2 else "box", kind, op)], order="f", trace=tr, strace=True, delay_us=0,
@@ -1766,7 +1862,7 @@ def enumerate_cases(tier, model):
         pairs += [((False, "j"), (True, "d"), "r"), ((False, "d"), (False, "j"), "r"), ((True, "j"), (False, "d"), "r")]
     else:
         pairs = [((False, "j"), (True, "d"), "f"), ((False, "d"), (True, "j"), "r")]
-    tymix = [("u64", "str"), ("al64", "big"), ("box", "unit"), ("a3", "u8")]
+    tymix = [("u64", "str"), ("al64", "big"), ("box", "unit"), ("a3", "u8"), ("a16", "a4k"), ("a64x", "a32")]
     n2 = 0
     model["two"] = []
     for a, b, order in pairs:
@@ -1814,7 +1910,7 @@ def enumerate_cases(tier, model):
                 if tr is None:
                     model.setdefault("linearize_failures", []).append((trip, order, i, j, k3))
                     continue
-                tys = (TYPES[ci % 8], TYPES[(ci + 3) % 8], TYPES[(ci + 5) % 8])
+                tys = (TYPES[ci % len(TYPES)], TYPES[(ci + 3) % len(TYPES)], TYPES[(ci + 5) % len(TYPES)])
                 model["three"] += 1
                 cases.append(dict(kind="gated", specs=[(tys[x], trip[x][0], trip[x][1]) for x in range(3)], order=order, trace=tr,
                                   strace=True, delay_us=0, name="g3/%s/%d-%d-%d/%s" % (order, i, j, k3, pol)))
@@ -1851,6 +1947,13 @@ def enumerate_hist(tier):
     # "the thread finishes during the join", timed by the kernel clock: the closure sleeps 300 ms, join is called at once
     for sp in (("u64", False, "s"), ("box", False, "s"), ("u64", True, "s")):
         cases.append(dict(kind="hist", specs=[sp], reps=1, log=True, strace=True, name="hist/sleep300/" + spec_str([sp])))
+    # results whose DESTRUCTOR panics: joined (the joiner takes the value apart), or the handle is dropped before the
+    # thread's flag CAS so that the thread itself has to run the destructor (and ends on the panic path)
+    for ty in DTOR_PANIC_TYPES:
+        for op in ("j", "J", "w", "e"):
+            cases.append(dict(kind="hist", specs=[(ty, False, op)], reps=1, log=True, name="hist/dtor-panics/%s:r:%s" % (ty, op)))
+        cases.append(dict(kind="hist", specs=[(ty, True, "e")], reps=1, log=True, name="hist/dtor-panics/%s:p:e" % ty))
+        cases.append(dict(kind="hist", specs=[(ty, False, "e"), (ty, False, "j"), (ty, False, "e")], reps=1, log=True, name="hist/dtor-panics/%s:e-j-e" % ty))
     # WHERE the closure panics: inside a print macro argument (print lock held), holding a Mutex / RwLock guard
     for kind in ("e", "o", "m", "w"):
         for op in ("j", "J", "w", "e", "l", "x"):
